@@ -142,7 +142,79 @@ class Spec(object):
         return classify(v)
 
 
+class MixedSpec(Spec):
+    """the line in header position is LF-terminated in a file whose first header ended with CRLF:
+    header lines end with the file's newline, so the line is a header only when its own last
+    byte is the CR (then the header is the line without it)"""
+    PREFIX = b'#diffx: version=1.0\r\n'
+
+    def corpus(self):
+        return []
+
+    def cases(self, ctx, budget, rng):
+        maxlen, nrand = budget
+        for h in HEADS:
+            for o in OPTS:
+                yield h + o
+                yield h + o + b'\r'
+        for n in range(0, min(maxlen, 3) + 1):
+            for tup in itertools.product(ALPHABET, repeat=n):
+                yield b'#.change:' + b''.join(tup)
+                yield b'#.change: a=b' + b''.join(tup)
+        for _ in range(nrand // 10):
+            pairs = [rng.choice([b'a', b'key', b'my-opt', b'9a']) + b'=' + rng.choice([b'b', b'12', b'-3', b'a.b', b'x y', b'1_0'])
+                     for _i in range(rng.randint(0, 3))]
+            yield b'#.change:' + (b' ' + b', '.join(pairs) if pairs else b'') + rng.choice([b'', b'', b'\r', b' ', b'x'])
+
+    def data(self, line):
+        return self.PREFIX + line + b'\n'
+
+    def oracle(self, case, impl_res):
+        if b'\n' in case:
+            return []
+        recs, err = adapters.read_records(self.data(case))
+        bad = []
+        if err is not None and type(err).__name__ != 'DiffXParseError':
+            bad.append('%s escapes for a line in header position' % type(err).__name__)
+        elif not case.strip():
+            if err is not None or len(recs) != 1:
+                bad.append('blank line not skipped')
+        else:
+            exp = expected(case[:-1]) if case.endswith(b'\r') else None
+            if exp is not None and exp[0] in ('.meta', '.preamble'):
+                pass
+            elif exp is None or exp[0] != '.change':
+                if err is None:
+                    bad.append('LF-terminated line in a CRLF file outside the grammar (or without the file\'s newline) accepted: %r'
+                               % (recs[1:] or None))
+            elif err is not None:
+                bad.append('grammatical CRLF header rejected: %s' % err)
+            elif len(recs) != 2 or recs[1]['options'] != exp[1] or \
+                    any(type(recs[1]['options'][k]) is not type(v) for k, v in exp[1].items()):
+                bad.append('options %r differ from the header as written %r' % (recs[1]['options'] if len(recs) == 2 else None, exp[1]))
+        return [{'what': b, 'line': case.hex(), 'mixed': True} for b in bad]
+
+    def key(self, case, impl_res):
+        return (b'mixed', case)
+
+    def bucket(self, case, impl_res):
+        return 'mixed_' + Spec.bucket(self, case, impl_res)
+
+
 def explore(ctx, escalate=False, hint=None):
+    res = explore_main(ctx, escalate, hint)
+    r2 = base.explore_generic(ctx, MixedSpec(), (3, 40000 if ctx.run.tier == 'thorough' else 6000),
+                              'the same heads / option strings / short tails, each LF-terminated (with and without a final CR) in a file '
+                              'whose first header ends with CRLF', chunk=40000)
+    res['rule'] += ' + ' + r2['rule']
+    res['evaluations'] += r2['evaluations']
+    res['disagreements'] += r2['disagreements']
+    res['violations'] += r2['violations']
+    res['distribution'].update(r2['distribution'])
+    return res
+
+
+def explore_main(ctx, escalate=False, hint=None):
     if ctx.run.tier == 'thorough':
         budget = (5, 200000)
     elif escalate:
@@ -161,9 +233,13 @@ def classify(v):
     reported as an integer instead of verbatim."""
     if 'options' in v.get('what', '') and 'differ from the header as written' in v['what']:
         line = bytes.fromhex(v['line'])
+        data = PREFIX + line + b'\n'
+        if v.get('mixed'):
+            data = MixedSpec.PREFIX + line + b'\n'
+            line = line[:-1]
         exp = expected(line)
         if exp:
-            recs, err = adapters.read_records(PREFIX + line + b'\n')
+            recs, err = adapters.read_records(data)
             if err is None and len(recs) == 2:
                 diff = [k for k in exp[1] if recs[1]['options'].get(k) != exp[1][k] or
                         type(recs[1]['options'].get(k)) is not type(exp[1][k])]
@@ -175,7 +251,7 @@ def classify(v):
 def replay(run, rp):
     v = rp.get('violation') or {}
     if 'line' in v:
-        spec = Spec()
+        spec = MixedSpec() if v.get('mixed') else Spec()
         case = bytes.fromhex(v['line'])
         print('line:', case)
         print('implementation:', spec.impl(case)[:600])
